@@ -158,6 +158,57 @@ func TestVerifC18Bucket(t *testing.T) {
 				abandoned = true
 				trace = append(trace, "abandon+write("+name+")")
 			},
+			"overlappingReads": func(t *rapid.T) {
+				// handlers keep several readers open at once, and some close a reader twice (explicitly and
+				// through a deferred call): each reader still delivers its own object's bytes
+				ks := keys(model)
+				if len(ks) == 0 {
+					t.Skip("nothing stored")
+				}
+				if rapid.Bool().Draw(t, "doubleCloseFirst") {
+					if r, err := b.Object(ks[rapid.IntRange(0, len(ks)-1).Draw(t, "dc")]).NewReader(ctx); err == nil {
+						io.ReadAll(r)
+						r.Close()
+						r.Close()
+					}
+				}
+				n := rapid.IntRange(2, 4).Draw(t, "nreaders")
+				type open struct {
+					name string
+					r    io.ReadCloser
+					got  []byte
+					done bool
+				}
+				var rs []*open
+				for i := 0; i < n; i++ {
+					name := ks[rapid.IntRange(0, len(ks)-1).Draw(t, "rk")]
+					r, err := b.Object(name).NewReader(ctx)
+					if err != nil {
+						t.Fatalf("opening a reader on %q: %v", name, err)
+					}
+					rs = append(rs, &open{name: name, r: r})
+				}
+				buf := make([]byte, 7)
+				for live := n; live > 0; {
+					o := rs[rapid.IntRange(0, n-1).Draw(t, "turn")]
+					if o.done {
+						continue
+					}
+					k, err := o.r.Read(buf[:rapid.IntRange(1, 7).Draw(t, "chunk")])
+					o.got = append(o.got, buf[:k]...)
+					if err != nil || len(o.got) > len(model[o.name])+8 {
+						o.done = true
+						live--
+					}
+				}
+				for _, o := range rs {
+					o.r.Close()
+					if !bytes.Equal(o.got, model[o.name]) {
+						t.Fatalf("after %v: of %d readers open at the same time, the one on %q delivered %d bytes (%.20q...), stored are %d bytes (%.20q...)", trace, n, o.name, len(o.got), o.got, len(model[o.name]), model[o.name])
+					}
+				}
+				trace = append(trace, fmt.Sprintf("overlappingReads(%d)", n))
+			},
 			"copy": func(t *rapid.T) {
 				// Copy (what the worker's copy handler does) writes the destination; afterwards the two
 				// objects are independent: overwriting one must not change the other
